@@ -13,6 +13,8 @@ After that the pair is driven by one op per call (same textual ops as extract/c0
     deq X miu icv     p = X.dequeue(miu, icv); if p: wire(X->other).append(encode(p))
     ack X             p = X.sendack();          if p: wire(X->other).append(encode(p))
     deliver X         if wire(other->X): X.enqueue(decode(wire.popleft()))
+    collect X miu     p = X.dequeue(miu, 0) or X.sendack(); if p: wire(X->other).append(encode(p))
+                      (llc.collect() without aggregation; LlcPair calls the real llc.collect())
     inject X <pdu>    wire(X->other).append(encode(<pdu>))        (fault injection)
 op() returns (out, state) strings in the format of the model driver (without the ghost part).
 Every PDU that crosses is reported to an optional observer (the monitor).
